@@ -96,6 +96,7 @@ pub fn gen_sched(rng: &mut Rng, threads_hint: u64) -> SchedCfg {
         ns_per_step: *rng.pick(&[1_000u64, 20_000, 50_000, 500_000]),
         p_jump: *rng.pick(&[0.0, 0.002, 0.02, 0.2]),
         p_load_sched: *rng.pick(&[0.0, 0.05, 0.3]),
+        step_budget: 0,
     }
 }
 
